@@ -538,6 +538,12 @@ def caller_families(prog, root_path):
             cb = prog.callee_body(t)
             if cb is not None and cb.path == root_path and b.path not in fam_bodies:
                 out.add(strip_generics(b.root))
+    # calls that rules/inline.py replaced by the callee's blocks are still calls
+    for path, callees in getattr(prog, "inlined", []):
+        if root_path in callees:
+            b = prog.bodies.get(path)
+            if b is not None and not b.test and b.path not in fam_bodies:
+                out.add(strip_generics(b.root))
     return out
 
 
